@@ -238,7 +238,8 @@ Definition typed_name (m : modl) (rel : str) : res str :=
     let s' := firstn (length s - 3) s in
     let parts' := removelast parts ++ [s'] in
     let single_init := (length parts' =? 1) && (str_eqb s' s_init || str_eqb s' s_init_typeset) in
-    Ok (join s_dc (if negb (is_global m) && negb single_init then m_name m :: parts' else parts')).
+    (* px.NewTypedName2 trims a leading "::" (typedname.go:121) *)
+    Ok (trim_dc (join s_dc (if negb (is_global m) && negb single_init then m_name m :: parts' else parts'))).
 
 (* ---- the index (filebased.go:331) -------------------------------------------------------------------------- *)
 
@@ -250,16 +251,20 @@ Fixpoint ix_add (ix : index) (k p : str) : index :=
   | (k', ps) :: r => if str_eqb k k' then (k', ps ++ [p]) :: r else (k', ps) :: ix_add r k p
   end.
 
-(* the name key a walk entry is indexed under, if it is indexed at all *)
+(* the name key a path (relative to the loader root) is indexed under, if it is indexed at all: below types/,
+   extension .pp (filebased.go:353-356) *)
+Definition key_of_rel (m : modl) (p : str) : option str :=
+  match strip_prefix s_types_slash p with
+  | Some rel =>
+      if has_suffix s_pp p then
+        match typed_name m rel with Ok nm => Some (lower nm) | _ => None end
+      else None
+  | None => None
+  end.
+
+(* directories are not indexed (filebased.go:352) *)
 Definition path_key (m : modl) (f : file) : option str :=
-  if f_dir f then None
-  else match strip_prefix s_types_slash (f_rel f) with
-       | Some rel =>
-           if has_suffix s_pp (f_rel f) then
-             match typed_name m rel with Ok nm => Some (lower nm) | _ => None end
-           else None
-       | None => None
-       end.
+  if f_dir f then None else key_of_rel m (f_rel f).
 
 Definition index_of (m : modl) : index :=
   fold_left (fun ix f => match path_key m f with Some k => ix_add ix k (f_rel f) | None => ix end) (m_walk m) [].
@@ -287,10 +292,11 @@ Record state := {
   st_entries : list ((nat * str) * option tval);   (* namedEntries of the file-based loaders: (module, key) *)
   st_dep : list (str * option tval);               (* namedEntries of the dependency loader *)
   st_kids : list (Z * str);                        (* placeholders of the child loaders of the contexts *)
-  st_reads : list (nat * str)                      (* GetContent calls, oldest first *)
+  st_reads : list (nat * str);                     (* GetContent calls, oldest first *)
+  st_unres : list N                                (* markers of the aliases bound but not (yet) resolved *)
 }.
 
-Definition st0 : state := {| st_entries := []; st_dep := []; st_kids := []; st_reads := [] |}.
+Definition st0 : state := {| st_entries := []; st_dep := []; st_kids := []; st_reads := []; st_unres := [] |}.
 
 Definition mk_eqb (a b : nat * str) : bool := Nat.eqb (fst a) (fst b) && str_eqb (snd a) (snd b).
 
@@ -337,7 +343,7 @@ Definition set_entry_m (i : nat) (k : str) (v : option tval) : M unit :=
         | None => (s, Er ERedefine)
         end
     | _ => ({| st_entries := ((i, k), v) :: st_entries s; st_dep := st_dep s; st_kids := st_kids s;
-               st_reads := st_reads s |}, Ok tt)
+               st_reads := st_reads s; st_unres := st_unres s |}, Ok tt)
     end.
 
 (* the same on the dependency loader *)
@@ -350,17 +356,26 @@ Definition dep_set_m (k : str) (v : option tval) : M unit :=
         | None => (s, Er ERedefine)
         end
     | _ => ({| st_entries := st_entries s; st_dep := (k, v) :: st_dep s; st_kids := st_kids s;
-               st_reads := st_reads s |}, Ok tt)
+               st_reads := st_reads s; st_unres := st_unres s |}, Ok tt)
     end.
 
 (* the same on a child loader: it only ever holds placeholders *)
 Definition kid_add_m (j : Z) (k : str) : M unit :=
   fun s => ({| st_entries := st_entries s; st_dep := st_dep s; st_kids := (j, k) :: st_kids s;
-               st_reads := st_reads s |}, Ok tt).
+               st_reads := st_reads s; st_unres := st_unres s |}, Ok tt).
 
 Definition log_read_m (i : nat) (p : str) : M unit :=
   fun s => ({| st_entries := st_entries s; st_dep := st_dep s; st_kids := st_kids s;
-               st_reads := st_reads s ++ [(i, p)] |}, Ok tt).
+               st_reads := st_reads s ++ [(i, p)]; st_unres := st_unres s |}, Ok tt).
+
+(* typealiastype.go:142: an alias is bound before it is resolved (resolvedType is set when every name its
+   expression refers to has been looked up); if that fails the bound alias stays unresolved *)
+Definition unres_add_m (mk : N) : M unit :=
+  fun s => ({| st_entries := st_entries s; st_dep := st_dep s; st_kids := st_kids s; st_reads := st_reads s;
+               st_unres := mk :: st_unres s |}, Ok tt).
+Definition unres_del_m (mk : N) : M unit :=
+  fun s => ({| st_entries := st_entries s; st_dep := st_dep s; st_kids := st_kids s; st_reads := st_reads s;
+               st_unres := filter (fun x => negb (N.eqb x mk)) (st_unres s) |}, Ok tt).
 
 (* the loader of the calling context: the top loader itself (None) or the child loader of context j, wrapped —
    during an instantiation — in the instantiationLoader of the defining module (filebased.go:277) *)
@@ -378,8 +393,12 @@ Fixpoint for_each_i {A} (f : nat -> A -> M unit) (j : nat) (l : list A) : M unit
   | x :: t => _ <- f j x ;; for_each_i f (S j) t
   end.
 
+(* the indexes of all loaders (a loader builds its index once, on first use: filebased.go:230) *)
+Definition indexes_of (w : world) : list index := map index_of (w_mods w).
+
 Section World.
   Variable w : world.
+  Variable ixs : list index.      (* = indexes_of w; a parameter so that evaluation computes it once per run *)
 
   Definition mod_at (i : nat) : modl := nth i (w_mods w) dummy_mod.
   Definition shadow (k : str) : option str :=
@@ -388,7 +407,7 @@ Section World.
   Definition shadow_val (nm : str) : tval := {| tv_name := nm; tv_marker := 0%N; tv_ts := false |}.
 
   (* filebased.go:204: one smart path (types, .pp) for the type namespace *)
-  Definition find_existing_path (i : nat) (k : str) : option (list str) := ix_get (index_of (mod_at i)) k.
+  Definition find_existing_path (i : nat) (k : str) : option (list str) := ix_get (nth i ixs []) k.
 
   Definition content_at (i : nat) (p : str) : option file := file_at (mod_at i) p.
 
@@ -400,7 +419,7 @@ Section World.
   (* filebased.go:286, type namespace, minus what the parent discovers; names as TypedNameFromMapKey gives them *)
   Definition mod_discover (i : nat) : list str :=
     sort_strs (filter (fun k => match shadow k with Some _ => false | None => true end)
-                      (map fst (index_of (mod_at i)))).
+                      (map fst (nth i ixs []))).
 
   (* dependency.go:11: module name -> loader, later loaders replace earlier ones *)
   Definition dep_index_get (nm : str) : option nat :=
@@ -439,7 +458,9 @@ Section World.
        refers to is loaded through the context loader (types/resolver.go:34; a miss becomes a TypeReference) *)
     Definition add_alias (cl : ctxl) (i : nat) (kd : str) (marker : N) (refs : list str) : M unit :=
       _ <- set_entry_m i kd (Some {| tv_name := kd; tv_marker := marker; tv_ts := false |}) ;;
-      for_each (fun r => _ <- load cl (norm_name r) ;; ret tt) refs.
+      _ <- unres_add_m marker ;;
+      _ <- for_each (fun r => _ <- load cl (norm_name r) ;; ret tt) refs ;;
+      unres_del_m marker.
 
     (* px.AddTypes of a TypeSet: resolve (no lookups: the members are core types), then resolveTypeSet
        (internal/context.go:268) asks the context loader for each member and binds what is not bound, then
@@ -454,9 +475,8 @@ Section World.
              end) 0 members ;;
       set_entry_m i kd (Some {| tv_name := kd; tv_marker := 0%N; tv_ts := true |}).
 
-    (* instantiate.go:13 *)
-    Definition inst_type (cl : ctxl) (i : nat) (k : str) (p : str) : M unit :=
-      _ <- log_read_m i p ;;
+    (* instantiate.go:15-29: what is done with the content *)
+    Definition inst_body (cl : ctxl) (i : nat) (k : str) (p : str) : M unit :=
       match content_at i p with
       | None => fail (EUnreadable i p)
       | Some f =>
@@ -473,6 +493,10 @@ Section World.
               else fail (EWrongDef i p (f_defline f))
           end
       end.
+
+    (* instantiate.go:13: GetContent (counted), then the above *)
+    Definition inst_type (cl : ctxl) (i : nat) (k : str) (p : str) : M unit :=
+      _ <- log_read_m i p ;; inst_body cl i k p.
 
     (* filebased.go:238 *)
     Definition instantiate (cl : ctxl) (i : nat) (k : str) (origins : list str) : M eres :=
@@ -608,15 +632,16 @@ Section World.
       end.
   End Layer.
 
-  Fixpoint LEn (n : nat) : ctxl -> str -> M eres :=
+  (* (the state is a parameter of the fixpoints: under call-by-value a layer is only unfolded when it is used) *)
+  Fixpoint LEn (n : nat) (cl : ctxl) (k : str) (s : state) {struct n} : state * res eres :=
     match n with
-    | 0 => fun _ _ => out_of_fuel
-    | S n' => ctx_load_entry (LEn n') (FDn n')
+    | 0 => (s, Fuel)
+    | S n' => ctx_load_entry (LEn n') (FDn n') cl k s
     end
-  with FDn (n : nat) : ctxl -> nat -> str -> M eres :=
+  with FDn (n : nat) (cl : ctxl) (i : nat) (k : str) (s : state) {struct n} : state * res eres :=
     match n with
-    | 0 => fun _ _ _ => out_of_fuel
-    | S n' => find (LEn n') (FDn n')
+    | 0 => (s, Fuel)
+    | S n' => find (LEn n') (FDn n') cl i k s
     end.
 
   (* ---- operations -------------------------------------------------------------------------------------- *)
@@ -649,7 +674,10 @@ Section World.
     match o with
     | OpLoad ctx name =>
         let '(s', r) := load (LEn fuel) (top_ctx ctx) (norm_name name) s in
-        (s', (out_of_res (fun v => match v with Some v => OFound v | None => ONotFound end) r,
+        (* the marker of an alias is observed through its resolved type: none while unresolved *)
+        let obs v := if existsb (N.eqb (tv_marker v)) (st_unres s')
+                     then {| tv_name := tv_name v; tv_marker := 0%N; tv_ts := tv_ts v |} else v in
+        (s', (out_of_res (fun v => match v with Some v => OFound (obs v) | None => ONotFound end) r,
               skipn (length (st_reads s)) (st_reads s')))
     | OpHas m name => (s, (OBool (mod_has m (norm_name name)), []))
     | OpDiscover m => (s, (OList (mod_discover m), []))
@@ -664,8 +692,10 @@ Section World.
                 let '(s'', xs) := run_from fuel s' t in (s'', x :: xs)
     end.
 
-  Definition run (fuel : nat) (ops : list op) : list (out * list (nat * str)) := snd (run_from fuel st0 ops).
 End World.
+
+Definition run (w : world) (fuel : nat) (ops : list op) : list (out * list (nat * str)) :=
+  let ixs := indexes_of w in snd (run_from w ixs fuel st0 ops).
 
 (* ---- decidable equality of the observables (used by the correspondence file) -------------------------------- *)
 
